@@ -1,6 +1,6 @@
 (* Document order on the plain tree: how the following / preceding axes decompose along the parent chain.
    These are the facts the pointer walks `_iterate_following` / `_iterate_preceding` are proved against. *)
-From Coq Require Import List NArith ZArith Bool Lia.
+From Coq Require Import List NArith ZArith Bool Lia Permutation.
 From Delb.Base Require Import PyStr.
 From Delb.Tree Require Import ATree ITree ANav ANavFacts.
 Import ListNotations.
@@ -144,8 +144,8 @@ Lemma wgo_first_some D rec : forall l c, hd_error (filter D (map iid l)) = Some 
     /\ wgo D rec l false = c :: rec kc ++ flat_map (fun k => iid k :: rec k) l2.
 Proof.
   induction l as [|k r IH]; intros c H; [discriminate|]. cbn in H |- *. destruct (D (iid k)) eqn:E.
-  - cbn in H. injection H as <-. exists [], k, r. rewrite wgo_started. auto.
-  - destruct (IH c H) as [l1 [kc [l2 [E1 [E2 E3]]]]]. exists (k :: l1), kc, l2. rewrite E1. auto.
+  - cbn in H. injection H as <-. exists [], k, r. split; [reflexivity|]. split; [reflexivity|]. rewrite wgo_started. reflexivity.
+  - destruct (IH c H) as [l1 [kc [l2 [E1 [E2 E3]]]]]. exists (k :: l1), kc, l2. split; [rewrite E1; reflexivity|]. split; [exact E2|exact E3].
 Qed.
 Lemma wgo_first_none D rec : forall l, hd_error (filter D (map iid l)) = None -> wgo D rec l false = [].
 Proof.
@@ -256,20 +256,312 @@ Section Following.
     intros Hh Hn. rewrite (following_decompose t Hnd n Hn). unfold Wf. rewrite !filter_app. f_equal.
     - destruct (a_sub_of_id t Hnd n Hn) as [s [Hs [E Hsub]]]. unfold wd, a_descendants. rewrite Hsub.
       apply wdesc_filter. exact (hid_closed_sub D t s Hh Hs).
-    - rewrite !filter_flat_map. apply flat_map_ext_in'. intros m Hm. unfold sub_ids. cbn [filter]. f_equal; [|].
-      all: unfold wd, a_descendants; destruct (a_sub t m) as [s|] eqn:Es; [|reflexivity];
-        destruct (a_sub_some t m s Es) as [Hs _]; rewrite (wdesc_filter D s (hid_closed_sub D t s Hh Hs)); reflexivity.
+    - rewrite !filter_flat_map. apply flat_map_ext_in'. intros m Hm. unfold sub_ids.
+      assert (Hw : filter D (wd m) = filter D (a_descendants t m)).
+      { unfold wd, a_descendants. destruct (a_sub t m) as [s|] eqn:Es; [|reflexivity].
+        destruct (a_sub_some t m s Es) as [Hs _]. exact (wdesc_filter D s (hid_closed_sub D t s Hh Hs)). }
+      cbn [filter]. rewrite Hw. reflexivity.
   Qed.
   Lemma wd_length m : length (wd m) <= length (a_descendants t m).
   Proof. unfold wd, a_descendants. destruct (a_sub t m) as [s|]; [apply wdesc_length|cbn; lia]. Qed.
   Theorem Wf_length n : In n (ids t) -> length (Wf n) < length (ids t).
   Proof.
-    intros Hn. pose proof (before_after n (ids t) Hn) as H. fold (a_following t n) in H.
-    rewrite (following_decompose t Hnd n Hn) in H.
+    intros Hn.
     assert (Hl : length (Wf n) <= length (a_descendants t n ++ flat_map (sub_ids t) (pend t n))).
     { unfold Wf. rewrite !app_length. apply Nat.add_le_mono; [apply wd_length|].
-      induction (pend t n) as [|m r IH]; [cbn; lia|]. cbn [flat_map]. rewrite !app_length. unfold sub_ids at 1. cbn [length].
-      pose proof (wd_length m). lia. }
+      induction (pend t n) as [|m r IH]; [cbn; lia|]. cbn [flat_map]. rewrite !app_length.
+      change (sub_ids t m) with (m :: a_descendants t m). cbn [length]. pose proof (wd_length m). lia. }
+    pose proof (before_after n (ids t) Hn) as H. fold (a_following t n) in H.
+    rewrite (following_decompose t Hnd n Hn) in H.
     rewrite <- H. rewrite app_length. cbn [length]. lia.
   Qed.
 End Following.
+
+(* ---------------------------------------------------------------- the last visible descendant *)
+Lemma flat_map_filter_skip {A B} (P : A -> bool) (f : A -> list B) l :
+  (forall k, In k l -> P k = false -> f k = []) -> flat_map f l = flat_map f (filter P l).
+Proof.
+  induction l as [|k r IH]; intros H; [reflexivity|]. cbn. destruct (P k) eqn:E.
+  - cbn. rewrite IH; [reflexivity|]. intros k' Hk'. apply H. right. exact Hk'.
+  - rewrite (H k (or_introl eq_refl) E). cbn. apply IH. intros k' Hk'. apply H. right. exact Hk'.
+Qed.
+Lemma last_error_app_ne {A} (X : list A) y r : last_error (X ++ y :: r) = last_error (y :: r).
+Proof.
+  induction X as [|x X' IH]; [reflexivity|]. cbn [app]. destruct (X' ++ y :: r) eqn:E; [destruct X'; discriminate|].
+  change (last_error (x :: a :: l)) with (last_error (a :: l)). exact IH.
+Qed.
+Lemma last_cons_default' {A} : forall (l : list A) x d, last (x :: l) d = last l x.
+Proof. induction l as [|y r IH]; intros x d; [reflexivity|]. change (last (x :: y :: r) d) with (last (y :: r) d). rewrite !IH. reflexivity. Qed.
+Lemma last_error_cons_last {A} : forall (l : list A) x, last_error (x :: l) = Some (last l x).
+Proof.
+  induction l as [|y r IH]; intros x; [reflexivity|]. change (last_error (x :: y :: r)) with (last_error (y :: r)).
+  rewrite IH, last_cons_default'. reflexivity.
+Qed.
+Lemma last_of_last_error {A} (l : list A) d : last l d = match last_error l with Some x => x | None => d end.
+Proof. destruct l as [|x r]; [reflexivity|]. rewrite last_error_cons_last, last_cons_default'. reflexivity. Qed.
+Lemma last_flat {A} (g : A -> list A) l :
+  last_error (flat_map (fun k => k :: g k) l) = match last_error l with None => None | Some c => Some (last (g c) c) end.
+Proof.
+  destruct l as [|c r] using rev_ind; [reflexivity|]. rewrite last_error_app, flat_map_app. cbn [flat_map]. rewrite app_nil_r.
+  rewrite last_error_app_ne. apply last_error_cons_last.
+Qed.
+Lemma last_error_in {A} (l : list A) x : last_error l = Some x -> In x l.
+Proof.
+  destruct l as [|y r] using rev_ind; [discriminate|]. rewrite last_error_app. intros [= ->]. apply in_or_app. right. left. reflexivity.
+Qed.
+
+Section LastDescendant.
+  Variable t : itree.
+  Hypothesis Hnd : NoDup (ids t).
+  Variable D : nfilter.
+  Hypothesis Hh : hid_closed D t.
+
+  Lemma visible_descendants n : In n (ids t) ->
+    filter D (a_descendants t n) = flat_map (fun k => k :: filter D (a_descendants t k)) (filter D (a_children t n)).
+  Proof.
+    intros Hn. rewrite (descendants_preorder t Hnd n Hn) at 1. rewrite filter_flat_map.
+    rewrite (flat_map_filter_skip D (fun k => filter D (k :: a_descendants t k))).
+    - apply flat_map_ext_in'. intros k Hk. apply filter_In in Hk. destruct Hk as [_ Hk]. cbn [filter]. rewrite Hk. reflexivity.
+    - intros k Hk Hd. destruct (a_sub_of_id t Hnd k (children_in t n k Hk)) as [sk [Hsk [E Hsub]]].
+      apply filter_none. intros x Hx. apply (Hh sk Hsk); [rewrite E; exact Hd|].
+      destruct sk as [i p kk]. rewrite ids_unfold. cbn [iid] in E. subst i. unfold a_descendants in Hx. rewrite Hsub in Hx. exact Hx.
+  Qed.
+  Definition ldv (n : nid) : nid := last (filter D (a_descendants t n)) n.
+  Lemma last_visible_descendant n : In n (ids t) ->
+    last_error (filter D (a_descendants t n)) =
+    match last_error (filter D (a_children t n)) with None => None | Some c => Some (ldv c) end.
+  Proof. intros Hn. rewrite (visible_descendants n Hn). apply (last_flat (fun k => filter D (a_descendants t k))). Qed.
+  Lemma ldv_step n : In n (ids t) ->
+    ldv n = match last_error (filter D (a_children t n)) with None => n | Some c => ldv c end.
+  Proof.
+    intros Hn. unfold ldv at 1. rewrite last_of_last_error, (last_visible_descendant n Hn).
+    destruct (last_error (filter D (a_children t n))); reflexivity.
+  Qed.
+  Lemma child_descendants_shorter n c : In n (ids t) -> In c (a_children t n) ->
+    length (a_descendants t c) < length (a_descendants t n).
+  Proof.
+    intros Hn Hc. rewrite (descendants_preorder t Hnd n Hn).
+    assert (H : forall l, In c l -> length (c :: a_descendants t c) <= length (flat_map (fun k => k :: a_descendants t k) l)).
+    { induction l as [|a r IH]; intros Hl; [destruct Hl|]. cbn [flat_map]. rewrite app_length.
+      destruct Hl as [->|Hl]; [lia|specialize (IH Hl); lia]. }
+    specialize (H _ Hc). cbn [length] in H. lia.
+  Qed.
+End LastDescendant.
+
+(* ---------------------------------------------------------------- post-order and breadth-first order *)
+Lemma map_flat_map {A B C} (f : B -> C) (g : A -> list B) l : map f (flat_map g l) = flat_map (fun x => map f (g x)) l.
+Proof. induction l as [|x r IH]; [reflexivity|]. cbn. rewrite map_app, IH. reflexivity. Qed.
+Lemma flat_map_nil_all {A B} (f : A -> list B) l : (forall x, In x l -> f x = []) -> flat_map f l = [].
+Proof.
+  induction l as [|x r IH]; intros H; [reflexivity|]. cbn. rewrite (H x (or_introl eq_refl)), IH; [reflexivity|].
+  intros y Hy. apply H. right. exact Hy.
+Qed.
+Fixpoint level (j : nat) (l : list itree) : list itree :=
+  match j with O => l | S j' => level j' (flat_map ikids l) end.
+Lemma level_app j : forall l1 l2, level j (l1 ++ l2) = level j l1 ++ level j l2.
+Proof. induction j as [|j IH]; intros l1 l2; [reflexivity|]. cbn [level]. rewrite flat_map_app. apply IH. Qed.
+Lemma level_nil j : level j [] = [].
+Proof. induction j as [|j IH]; [reflexivity|exact IH]. Qed.
+Lemma level_flat j : forall l, level j l = flat_map (fun s => level j [s]) l.
+Proof.
+  intros l. induction l as [|s r IH]; [apply level_nil|]. change (s :: r) with ([s] ++ r). rewrite level_app, IH. reflexivity.
+Qed.
+Lemma at_depth_level : forall j s, at_depth j s = map iid (level j [s]).
+Proof.
+  induction j as [|j IH]; intros s; [reflexivity|]. cbn [at_depth level flat_map]. rewrite app_nil_r.
+  rewrite (level_flat j (ikids s)), map_flat_map. apply flat_map_ext_in'. intros k _. apply IH.
+Qed.
+Lemma height_unfold i p kids : height (INode i p kids) = S (fold_right (fun k m => Nat.max (height k) m) 0 kids).
+Proof. reflexivity. Qed.
+Lemma at_depth_beyond : forall s j, height s <= j -> at_depth j s = [].
+Proof.
+  induction s as [i p kids IH] using itree_ind'. intros j Hj. rewrite height_unfold in Hj. destruct j as [|j]; [lia|].
+  cbn [at_depth ikids]. apply flat_map_nil_all. intros k Hk. rewrite Forall_forall in IH. apply (IH k Hk).
+  assert (height k <= fold_right (fun k m => Nat.max (height k) m) 0 kids).
+  { clear - Hk. induction kids as [|a r IHr]; [destruct Hk|]. cbn. destruct Hk as [->|Hk]; [lia|specialize (IHr Hk); lia]. }
+  lia.
+Qed.
+
+(* breadth-first order enumerates every node exactly once: its length is the size of the tree *)
+Lemma length_flat_map_split {A B} (f g : A -> list B) l :
+  length (flat_map (fun j => f j ++ g j) l) = length (flat_map f l) + length (flat_map g l).
+Proof. induction l as [|x r IH]; [reflexivity|]. cbn. rewrite !app_length, IH. lia. Qed.
+Lemma length_flat_map_swap {A B C} (f : A -> B -> list C) (la : list A) (lb : list B) :
+  length (flat_map (fun a => flat_map (f a) lb) la) = length (flat_map (fun b => flat_map (fun a => f a b) la) lb).
+Proof.
+  induction lb as [|b r IH]; cbn.
+  - induction la as [|a la' IHa]; [reflexivity|exact IHa].
+  - rewrite app_length, <- IH. rewrite (length_flat_map_split (fun a => f a b) (fun a => flat_map (f a) r) la). reflexivity.
+Qed.
+Lemma levels_length : forall s d, height s <= d ->
+  length (flat_map (fun j => at_depth j s) (seq 0 d)) = length (ids s).
+Proof.
+  induction s as [i p kids IH] using itree_ind'. intros d Hd. rewrite height_unfold in Hd. destruct d as [|d]; [lia|].
+  cbn [seq flat_map at_depth iid]. rewrite ids_unfold. cbn [app length]. f_equal.
+  rewrite <- seq_shift, flat_map_map. cbn [at_depth ikids].
+  rewrite (length_flat_map_swap at_depth (seq 0 d) kids).
+  assert (Hk : forall k, In k kids -> height k <= d).
+  { intros k Hk. assert (height k <= fold_right (fun k m => Nat.max (height k) m) 0 kids).
+    { clear - Hk. induction kids as [|a r IHr]; [destruct Hk|]. cbn. destruct Hk as [->|Hk]; [lia|specialize (IHr Hk); lia]. }
+    lia. }
+  clear Hd. induction IH as [|k r Hk0 _ IHr]; [reflexivity|]. cbn [flat_map]. rewrite !app_length.
+  rewrite (Hk0 d (Hk k (or_introl eq_refl))), IHr; [reflexivity|]. intros k' Hk'. apply Hk. right. exact Hk'.
+Qed.
+Lemma bf_length s : length (bf_ids s) = length (ids s).
+Proof. unfold bf_ids. apply levels_length. lia. Qed.
+
+Section Orders.
+  Variable t : itree.
+  Hypothesis Hnd : NoDup (ids t).
+
+  Lemma post_unfold n : In n (ids t) -> a_df_btt t n = flat_map (a_df_btt t) (a_children t n) ++ [n].
+  Proof.
+    intros Hn. destruct (a_sub_of_id t Hnd n Hn) as [s [Hs [E Hsub]]]. unfold a_df_btt at 1, a_children. rewrite Hsub.
+    destruct s as [i p kids] eqn:Es. cbn [post_ids iid] in *. subst i. f_equal. unfold kid_ids. cbn [ikids]. rewrite flat_map_map.
+    apply flat_map_ext_in'. intros k Hk. unfold a_df_btt.
+    rewrite (a_sub_in t Hnd k); [reflexivity|]. apply (kid_in_subtrees t (INode n p kids) k Hs). exact Hk.
+  Qed.
+
+  (* levels of the forest below a list of nodes, by identities *)
+  Definition CH (l : list nid) : list nid := flat_map (a_children t) l.
+  Fixpoint lv (d : nat) (l : list nid) : list nid :=
+    match d with O => [] | S d' => l ++ lv d' (CH l) end.
+  Lemma CH_forest l : (forall s, In s l -> In s (subtrees t)) -> CH (map iid l) = map iid (flat_map ikids l).
+  Proof.
+    intros H. unfold CH. rewrite flat_map_map. induction l as [|s r IH]; [reflexivity|]. cbn [flat_map]. rewrite map_app.
+    rewrite (a_children_in t Hnd s (H s (or_introl eq_refl))). unfold kid_ids. f_equal. apply IH. intros x Hx. apply H. right. exact Hx.
+  Qed.
+  Lemma kids_forest l : (forall s, In s l -> In s (subtrees t)) -> forall s, In s (flat_map ikids l) -> In s (subtrees t).
+  Proof. intros H s Hs. apply in_flat_map in Hs. destruct Hs as [x [Hx Hs]]. exact (kid_in_subtrees t x s (H x Hx) Hs). Qed.
+  Lemma lv_forest : forall d l, (forall s, In s l -> In s (subtrees t)) ->
+    lv d (map iid l) = flat_map (fun j => map iid (level j l)) (seq 0 d).
+  Proof.
+    induction d as [|d IH]; intros l H; [reflexivity|]. cbn [lv seq flat_map level]. f_equal.
+    rewrite (CH_forest l H), (IH _ (kids_forest l H)), <- seq_shift, flat_map_map. reflexivity.
+  Qed.
+  Theorem bf_unfold n : In n (ids t) ->
+    exists d, a_bf_ttb t n = n :: lv d (a_children t n) /\ lv d (a_children t n) = lv (S d) (a_children t n)
+              /\ (forall x, In x (lv (S d) (a_children t n)) -> In x (ids t)).
+  Proof.
+    intros Hn. destruct (a_sub_of_id t Hnd n Hn) as [s [Hs [E Hsub]]]. unfold a_bf_ttb, a_children. rewrite Hsub.
+    assert (Hk : forall k, In k (ikids s) -> In k (subtrees t)) by (intros k Hk; exact (kid_in_subtrees t s k Hs Hk)).
+    assert (Hlv : forall d, lv d (kid_ids s) = flat_map (fun j => at_depth (S j) s) (seq 0 d)).
+    { intros d. unfold kid_ids. rewrite (lv_forest d (ikids s) Hk). apply flat_map_ext_in'. intros j _.
+      rewrite at_depth_level. cbn [level flat_map]. rewrite app_nil_r. reflexivity. }
+    exists (height s - 1). split; [|split].
+    - unfold bf_ids. destruct (height s) as [|hh] eqn:Eh; [destruct s; discriminate|]. cbn [seq flat_map at_depth].
+      rewrite E. cbn [app]. f_equal. rewrite Hlv, <- seq_shift, flat_map_map. replace (S hh - 1) with hh by lia. reflexivity.
+    - rewrite !Hlv. replace (S (height s - 1)) with (height s - 1 + 1) by lia. rewrite seq_app, flat_map_app. cbn [seq flat_map].
+      rewrite (at_depth_beyond s (S (0 + (height s - 1)))) by lia. rewrite !app_nil_r. reflexivity.
+    - intros x Hx. rewrite Hlv in Hx. apply in_flat_map in Hx. destruct Hx as [j [_ Hx]]. rewrite at_depth_level in Hx.
+      apply in_map_iff in Hx. destruct Hx as [k [<- Hkl]]. apply sub_id_in.
+      assert (Hall : forall j l, (forall s, In s l -> In s (subtrees t)) -> forall k, In k (level j l) -> In k (subtrees t)).
+      { clear. intros j. induction j as [|j IH]; intros l H k Hk'; [exact (H k Hk')|]. cbn [level] in Hk'.
+        apply (IH (flat_map ikids l)); [|exact Hk']. intros s0 Hs0. apply in_flat_map in Hs0. destruct Hs0 as [x [Hx Hs0]].
+        exact (kid_in_subtrees t x s0 (H x Hx) Hs0). }
+      apply (Hall (S j) [s]); [|exact Hkl]. intros s0 [<-|[]]. exact Hs.
+  Qed.
+  Lemma bf_length_bound n : In n (ids t) -> length (a_bf_ttb t n) <= length (ids t).
+  Proof.
+    intros Hn. destruct (a_sub_of_id t Hnd n Hn) as [s [Hs [E Hsub]]]. unfold a_bf_ttb. rewrite Hsub, bf_length.
+    apply NoDup_incl_length; [exact (sub_ids_nodup t Hnd s Hs)|exact (ids_sub_incl t s Hs)].
+  Qed.
+End Orders.
+
+(* ---------------------------------------------------------------- the three traversal orders enumerate the same nodes *)
+Lemma post_perm s : Permutation (post_ids s) (ids s).
+Proof.
+  induction s as [i p kids IH] using itree_ind'. cbn [post_ids]. rewrite ids_unfold.
+  etransitivity; [apply Permutation_app_comm|]. cbn [app]. apply perm_skip.
+  induction IH as [|k r Hk _ IHr]; [reflexivity|]. cbn [flat_map]. apply Permutation_app; assumption.
+Qed.
+Lemma in_some_level : forall s x, In x (ids s) -> exists j, j < height s /\ In x (at_depth j s).
+Proof.
+  induction s as [i p kids IH] using itree_ind'. intros x Hx. rewrite ids_unfold in Hx. rewrite height_unfold.
+  destruct Hx as [<-|Hx]; [exists 0; split; [lia|left; reflexivity]|].
+  apply in_flat_map in Hx. destruct Hx as [k [Hk Hx]]. rewrite Forall_forall in IH. destruct (IH k Hk x Hx) as [j [Hj Hin]].
+  exists (S j). split.
+  - assert (height k <= fold_right (fun k m => Nat.max (height k) m) 0 kids).
+    { clear - Hk. induction kids as [|a r IHr]; [destruct Hk|]. cbn. destruct Hk as [->|Hk]; [lia|specialize (IHr Hk); lia]. }
+    lia.
+  - cbn [at_depth ikids]. apply in_flat_map. exists k. auto.
+Qed.
+Lemma bf_perm s : NoDup (ids s) -> Permutation (ids s) (bf_ids s).
+Proof.
+  intros Hnd. apply NoDup_Permutation_bis; [exact Hnd|rewrite bf_length; lia|].
+  intros x Hx. destruct (in_some_level s x Hx) as [j [Hj Hin]]. unfold bf_ids. apply in_flat_map. exists j.
+  split; [apply in_seq; lia|exact Hin].
+Qed.
+(* for every node: breadth-first, bottom-to-top and top-to-bottom traversal visit exactly the nodes of its subtree *)
+Theorem traversers_same_nodes t : NoDup (ids t) -> forall n, In n (ids t) ->
+  Permutation (a_df_ttb t n) (a_bf_ttb t n) /\ Permutation (a_df_btt t n) (a_df_ttb t n)
+  /\ a_df_ttb t n = n :: a_descendants t n.
+Proof.
+  intros Hnd n Hn. destruct (a_sub_of_id t Hnd n Hn) as [s [Hs [E Hsub]]]. unfold a_df_ttb, a_bf_ttb, a_df_btt, a_descendants.
+  rewrite Hsub. split; [apply bf_perm; exact (sub_ids_nodup t Hnd s Hs)|]. split; [apply post_perm|].
+  destruct s as [i p kids]. rewrite ids_unfold. cbn [iid ikids] in *. subst i. reflexivity.
+Qed.
+
+(* ---------------------------------------------------------------- index paths *)
+Lemma rpath_unfold n i p kids : rpath n (INode i p kids) = if N.eqb i n then Some [] else rpath_kids (rpath n) 0 kids.
+Proof. reflexivity. Qed.
+Lemma rpath_root t : rpath (iid t) t = Some [].
+Proof. destruct t as [i p kids]. rewrite rpath_unfold. cbn [iid]. rewrite N.eqb_refl. reflexivity. Qed.
+Lemma rpath_kids_none rec : forall l i, (forall k, In k l -> rec k = None) -> rpath_kids rec i l = None.
+Proof.
+  induction l as [|k r IH]; intros i H; [reflexivity|]. cbn. rewrite (H k (or_introl eq_refl)). apply IH.
+  intros k' Hk'. apply H. right. exact Hk'.
+Qed.
+Lemma rpath_kids_pick rec : forall l1 i k l2 p, (forall x, In x l1 -> rec x = None) -> rec k = Some p ->
+  rpath_kids rec i (l1 ++ k :: l2) = Some ((i + length l1) :: p).
+Proof.
+  induction l1 as [|x l1' IH]; intros i k l2 p H Hk; cbn.
+  - rewrite Hk, Nat.add_0_r. reflexivity.
+  - rewrite (H x (or_introl eq_refl)). rewrite (IH (S i) k l2 p); [f_equal; f_equal; lia| |exact Hk].
+    intros y Hy. apply H. right. exact Hy.
+Qed.
+Lemma rpath_none n t : ~ In n (ids t) -> rpath n t = None.
+Proof.
+  induction t as [i p kids IH] using itree_ind'. intros Hn. rewrite rpath_unfold. rewrite ids_unfold in Hn.
+  destruct (N.eqb i n) eqn:E; [apply N.eqb_eq in E; subst; exfalso; apply Hn; left; reflexivity|].
+  apply rpath_kids_none. intros k Hk. rewrite Forall_forall in IH. apply (IH k Hk).
+  intros Hin. apply Hn. right. apply in_flat_map. exists k. auto.
+Qed.
+Lemma rpath_some n t : In n (ids t) -> exists p, rpath n t = Some p.
+Proof.
+  induction t as [i pl kids IH] using itree_ind'. intros Hn. rewrite rpath_unfold. rewrite ids_unfold in Hn.
+  destruct (N.eqb i n) eqn:E; [eexists; reflexivity|]. destruct Hn as [->|Hn]; [rewrite N.eqb_refl in E; discriminate|].
+  apply in_flat_map in Hn. destruct Hn as [k [Hk Hn]]. rewrite Forall_forall in IH.
+  clear E. generalize 0. induction kids as [|a r IHr]; intros i0; [destruct Hk|]. cbn.
+  destruct (rpath n a) eqn:Ea; [eexists; reflexivity|]. destruct Hk as [->|Hk].
+  - destruct (IH k (or_introl eq_refl) Hn) as [p Hp]. congruence.
+  - apply IHr; [intros x Hx; apply IH; right; exact Hx|exact Hk].
+Qed.
+Lemma rpath_into i p l1 k l2 m : NoDup (ids (INode i p (l1 ++ k :: l2))) -> In m (ids k) ->
+  rpath m (INode i p (l1 ++ k :: l2)) = match rpath m k with Some q => Some (length l1 :: q) | None => None end.
+Proof.
+  intros Hnd Hm. rewrite rpath_unfold. rewrite ids_unfold in Hnd. inversion Hnd as [|? ? Hni Hnd']; subst.
+  assert (Hin : In m (flat_map ids (l1 ++ k :: l2))) by (apply in_flat_map; exists k; split; [apply in_or_app; right; left; reflexivity|exact Hm]).
+  destruct (N.eqb i m) eqn:E; [apply N.eqb_eq in E; subst; contradiction|].
+  destruct (rpath_some m k Hm) as [q Hq]. rewrite Hq. rewrite (rpath_kids_pick (rpath m) l1 0 k l2 q); [reflexivity| |exact Hq].
+  intros x Hx. apply rpath_none. intros Hmx. rewrite flat_map_app in Hnd'.
+  eapply nodup_app_disj; [exact Hnd'|apply in_flat_map; exists x; split; [exact Hx|exact Hmx]|].
+  cbn [flat_map]. apply in_or_app. left. exact Hm.
+Qed.
+Lemma rpath_kid t : NoDup (ids t) -> forall s l1 n l2, In s (subtrees t) -> kid_ids s = l1 ++ n :: l2 ->
+  exists ps, rpath (iid s) t = Some ps /\ rpath n t = Some (ps ++ [length l1]).
+Proof.
+  induction t as [i p kids IH] using itree_ind'. intros Hnd s l1 n l2 Hs E. rewrite subtrees_unfold in Hs. destruct Hs as [<-|Hs].
+  - exists []. split; [apply (rpath_root (INode i p kids))|]. unfold kid_ids in E. cbn [ikids] in E.
+    apply map_eq_app in E. destruct E as [k1 [k2' [Ek [E1 E2]]]]. apply map_eq_cons in E2. destruct E2 as [k [k2 [-> [E2 E3]]]].
+    subst kids. rewrite (rpath_into i p k1 k k2 n Hnd); [|destruct k; rewrite ids_unfold; left; exact E2].
+    rewrite <- E2, rpath_root, <- E1, map_length. reflexivity.
+  - apply in_flat_map in Hs. destruct Hs as [k [Hk Hs]]. destruct (in_split _ _ Hk) as [k1 [k2 Ek]]. subst kids.
+    assert (Hndk : NoDup (ids k)).
+    { rewrite ids_unfold in Hnd. inversion Hnd as [|? ? _ H]; subst. exact (flat_map_nodup_part ids _ k H Hk). }
+    rewrite Forall_forall in IH. destruct (IH k Hk Hndk s l1 n l2 Hs E) as [ps [H1 H2]].
+    exists (length k1 :: ps). split.
+    + rewrite (rpath_into i p k1 k k2 (iid s) Hnd (sub_id_in k s Hs)), H1. reflexivity.
+    + assert (Hn : In n (ids k)) by (apply (kid_id_in k s n Hs); rewrite E; apply in_or_app; right; left; reflexivity).
+      rewrite (rpath_into i p k1 k k2 n Hnd Hn), H2. reflexivity.
+Qed.
